@@ -281,6 +281,8 @@ func runC17(c *Ctx) {
 	runC17Huge(c)
 	genC17b(c)
 	runC17OS(c) // WriteFile / WriteReader / SafeWriteReader + ReadFile (c17b.go)
+	runC17SizedReaders(c, afero.NewMemMapFs())
+	runC17SizedReaders(c, afero.NewCopyOnWriteFs(afero.NewMemMapFs(), afero.NewMemMapFs()))
 }
 
 func (r *Rng) shuffle(xs [][]byte) {
